@@ -38,6 +38,17 @@ def pyval(v, objs):
     raise ValueError(v)
 
 
+def cfg_nodes(v):
+    if v[0] == "cfg":
+        yield v[1]
+    elif v[0] == "list":
+        for x in v[1]:
+            yield from cfg_nodes(x)
+    elif v[0] == "dict":
+        for _, x in v[1]:
+            yield from cfg_nodes(x)
+
+
 def has_cfg(v):
     return v[0] == "cfg" or (v[0] == "list" and any(has_cfg(x) for x in v[1])) or (v[0] == "dict" and any(has_cfg(x) for _, x in v[1]))
 
@@ -62,6 +73,7 @@ def build(graph, rng=None, shuffle_dicts=False):
     objs = {}
     order = [n for n in graph if not graph[n].get("dflt")]
     dflt_parent = {}
+    given_at = {}
     if rng:
         rng.shuffle(order)
     for n in order:
@@ -77,6 +89,15 @@ def build(graph, rng=None, shuffle_dicts=False):
                 if rng is not None and v[0] == "int" and type(val) is int and abs(val) < 2**31 and rng.random() < 0.15:
                     val = float(val)          # an integral float is an int for an int parameter
             kw[a] = val
+        given = set()
+        if rng and rng.random() < 0.7:
+            # configuration-valued parameters whose values exist already are given to the constructor as well
+            for a, v in spec["vals"].items():
+                if has_cfg(v) and not args[a].constant and not args[a].generator and all(
+                        m in objs and not graph[m].get("dflt") for m in cfg_nodes(v)) and not shuffle_dicts:
+                    kw[a] = pyval(v, objs)
+                    given.add(a)
+        given_at[n] = given
         if rng:
             items = list(kw.items())
             rng.shuffle(items)
@@ -95,8 +116,13 @@ def build(graph, rng=None, shuffle_dicts=False):
                     setattr(objs[m], a2, pyval(v2, objs))
     for n in order:
         spec = graph[n]
-        for a, v in spec["vals"].items():
+        later = list(spec["vals"].items())
+        if rng:
+            rng.shuffle(later)        # (the order in which the parameters are assigned is not the order of their declaration)
+        for a, v in later:
             if v[0] == "cfg" and dflt_parent.get(v[1]) == (n, a):
+                continue
+            if a in given_at.get(n, ()):
                 continue
             if has_cfg(v):
                 val = pyval(v, objs)
